@@ -4,3 +4,4 @@ import Driver.Sched
 import Driver.Output
 import Driver.Remote
 import Driver.Quote
+import Driver.Vars
